@@ -1147,3 +1147,54 @@ Proof.
     apply andb_true_iff in Sh as [S1 S2]; rewrite keys_sub_spec in S1, S2;
     do 4 eexists; (split; [eassumption|]); intros k; split; auto.
 Qed.
+
+(* ------------------------------------------------------------------ a solver for `pres` side conditions:
+   looks for `gpres G` and `apres R` among the hypotheses *)
+Ltac prs1 :=
+  match goal with
+  | |- pres (ret _) => apply pres_ret
+  | |- pres (fail _ _) => apply pres_fail
+  | |- pres (fail_many _ _) => apply pres_fail_many
+  | |- pres (panic _) => apply pres_panic
+  | |- pres out_of_fuel => apply pres_oof
+  | |- pres (bind _ _) => apply pres_bind; [|intros ?]
+  | |- pres (iterM _ _) => apply pres_iterM; intros ?
+  | |- pres (mapM _ _) => apply pres_mapM; intros ?
+  | |- pres (foldM _ _ _) => apply pres_foldM; intros ? ?
+  | |- pres (iter2 _ _ _) => apply pres_iter2; intros ? ?
+  | |- pres (push_type _) => apply pres_push
+  | |- pres (find _) => apply pres_find
+  | |- pres (find_node _) => apply pres_find_node
+  | |- pres (find_type _) => apply pres_find_type
+  | |- pres (get_node _) => apply pres_get_node
+  | |- pres (is_void _) => apply pres_is_void
+  | |- pres (add_constraint _ _) => apply pres_add_constraint
+  | |- pres (set_cons _ _) => apply pres_set_cons
+  | |- pres (var_ty _ _) => apply pres_var_ty
+  | |- pres (var_kind _ _) => apply pres_var_kind
+  | P : gpres ?G |- pres (g_unify ?G _ _ _ _) => apply (gp_unify G P)
+  | P : gpres ?G |- pres (g_check ?G _ _) => apply (gp_check G P)
+  | P : gpres ?G |- pres (g_arith ?G _ _ _ _) => apply (gp_arith G P)
+  | P : gpres ?G |- pres (g_div ?G _ _ _) => apply (gp_div G P)
+  | P : gpres ?G |- pres (g_divres ?G _ _ _) => apply (gp_divres G P)
+  | P : gpres ?G |- pres (g_copy ?G _ _) => apply framed_pres, (gp_copy G P)
+  | P : apres ?R |- pres (r_expr ?R _ _) => apply (ap_expr R P)
+  | P : apres ?R |- pres (r_stmt ?R _ _) => apply (ap_stmt R P)
+  | P : apres ?R |- pres (r_type ?R _ _) => apply (ap_type R P)
+  | |- pres (unify _ _ _ _) => unfold unify
+  | |- pres (unify_option _ _ _ _) => unfold unify_option
+  | |- pres (copy _ _) => unfold copy
+  | |- pres (expression_block _ _ _ _ _) => eapply pres_expression_block; eassumption
+  | |- pres (type_from_function _ _ _ _ _ _) => eapply pres_type_from_function; eassumption
+  | |- pres (resolve_type _ _) => eapply pres_resolve_type; eassumption
+  | |- pres (can_assign _ _ _) => apply pres_can_assign
+  | |- pres (call_args _ _ _ _ _ _) => eapply pres_call_args; eassumption
+  | |- pres (value_or_ret _ _) => apply pres_value_or_ret
+  | |- pres (if_branch _ _ _ _ _) => eapply pres_if_branch; eassumption
+  | |- pres (case_branch _ _ _ _ _ _ _ _) => eapply pres_case_branch; eassumption
+  | |- pres (bin_op _ _ _ _ _ _ _) => eapply pres_bin_op; eassumption
+  | |- pres (bin_op_ret _ _ _ _ _ _ _ _) => eapply pres_bin_op_ret; eassumption
+  | |- pres (definition _ _ _ _ _ _ _ _ _) => eapply pres_definition; eassumption
+  | |- pres (match ?x with _ => _ end) => destruct x
+  end.
+Ltac prs := repeat prs1.
